@@ -209,6 +209,48 @@ def self_test(ctx: Ctx):
                                     "changed_locked_gpts_rejected": res[2][1]}
 
 
+ACCEL_CFG = """SPECIFICATION Spec
+CONSTANTS
+  Energies = {{60, 100}}
+  MaxLen = {n}
+  Emit = TRUE
+INVARIANT MachineOK
+INVARIANT EmitHistory
+CHECK_DEADLOCK FALSE
+"""
+
+
+def accelerator_growth(ctx: Ctx, quick: bool):
+    """Growth beyond the listed properties: the Accelerator energy / lock / match machine (Accelerator.tla), the sibling of Grid that
+    every wave and transfer object carries.  Histories from TLC are replayed on the real class; a state or outcome that differs
+    from the model is reported as drift only."""
+    from abtem.core.energy import Accelerator
+    r = ctx.design_check("Accelerator", cfg_text=ACCEL_CFG.format(n=3 if quick else 4), label="Accelerator: locks kept, raising calls change nothing, match agrees",
+                         workers=1, timeout=1500)
+    hists = [json.loads(tlc.tla_value_to_py(s)[1]) for s in r.printed("HIST")]
+    differ = 0
+    val = lambda v: None if v == 0 else float(v) * 1e3
+    for h in hists:
+        objs = {"a": Accelerator(energy=val(h[0]["ea"]), lock_energy=h[0]["la"]), "b": Accelerator(energy=val(h[0]["eb"]), lock_energy=h[0]["lb"])}
+        for st in h[1:]:
+            raised = False
+            try:
+                if st["op"] == "Set":
+                    objs[st["x"]].energy = val(st["v"])
+                else:
+                    objs[st["x"]].match(objs["b" if st["x"] == "a" else "a"], check_match=st["check"])
+            except Exception:
+                raised = True
+            got = (raised, objs["a"].energy, objs["b"].energy)
+            want = (st["raised"], val(st["ea"]), val(st["eb"]))
+            if got != want:
+                differ += 1
+                if len(ctx.drift) < 10:
+                    ctx.drift.append({"what": "growth (Accelerator): real class differs from Accelerator.tla", "history": h, "step": st, "got": list(got)})
+                break
+    ctx.notes["growth_accelerator"] = {"histories_replayed": len(hists), "differing_from_model": differ}
+
+
 def run(ctx: Ctx):
     quick = ctx.tier == "quick"
     ctx.rule = ("histories = constructor arguments + <= D assignments; emitted by TLC from GridImpl (exhaustive over the "
@@ -279,6 +321,7 @@ def run(ctx: Ctx):
     for it in items[:3]:
         ctx.sample({"history": it[0], "dims": it[1], "trace": it[2]})
     _judge(ctx, items)
+    accelerator_growth(ctx, quick)
 
 
 def replay(ctx: Ctx, case):
